@@ -254,17 +254,18 @@ func c02LaneReader(t *testing.T, r *sim.Run) {
 		rd.Reset(src, fname, init...)
 		// snapshot of the unit table: a file abandoned midway still contributes the metadata it delivered
 		want := ref.parseFile(fname, delivered)
+		// bufio.Scanner's contract: a line of bufio.MaxScanTokenSize bytes or more may end the file with
+		// ErrTooLong (records before it exact); a reader without that limit yields the full reference parse.
 		tooLong := false
+		cutIdx := len(want)
 		for i, l := range refSplitLines(delivered) {
-			if len(l) >= 65535 {
-				// bufio.Scanner's contract: a token that does not fit is ErrTooLong; records before it are exact
-				var cut []*refRec
+			if len(l) >= 65536 {
+				cutIdx = 0
 				for _, w := range want {
 					if w.line < i+1 {
-						cut = append(cut, w)
+						cutIdx++
 					}
 				}
-				want = cut
 				tooLong = true
 				break
 			}
@@ -286,8 +287,11 @@ func c02LaneReader(t *testing.T, r *sim.Run) {
 			continue
 		}
 		if tooLong {
-			if rd.Err() == nil && n == len(want) {
-				r.Fail("records", "reader/long-line-lost", "%s: a line over 64KiB produced neither a record nor an error", fname)
+			switch {
+			case n == cutIdx && rd.Err() != nil: // stopped at the over-long line with an error
+			case n == len(want) && rd.Err() == nil: // handled the long line
+			default:
+				r.Fail("records", "reader/long-line-lost", "%s: a line of 64KiB or more: reader stopped after %d records with Err=%v; the format prescribes %d records before that line and %d in all", fname, n, rd.Err(), cutIdx, len(want))
 			}
 			r.Hit("line longer than the scanner buffer")
 			faulted = true
